@@ -34,6 +34,7 @@ class Scripted:
         self.kernel_calls = []
         self.final_state = None
         self.mean_pattern = mean_pattern
+        self.stats_inputs = []
 
     def _patch(self, mod, name, new):
         self.saved.append((mod, name, getattr(mod, name)))
@@ -51,6 +52,7 @@ class Scripted:
         def stats(model, data):
             me.round += 1
             me.trace.append(('statistics', me.round))
+            me.stats_inputs.append([int(x) for x in model.point_labels])
             if me.fault:
                 me.fault(me.round, 'statistics')
             if 'statistics' not in me.scripted:
@@ -94,6 +96,11 @@ class Scripted:
             else:
                 out = model.shallow_copy()
                 out.clusters = [x.deep_copy() for x in out.clusters]
+                for x in out.clusters:
+                    # the real labelling step publishes the matrix it priced with; the final
+                    # per-point likelihood report reads it
+                    if x.train_inverse is not None:
+                        x.inverse_covariance = x.train_inverse
                 out.point_labels = list(me.relabel[min(me.round, len(me.relabel) - 1)])
                 out.label_assignment_cost = 0.0
             me.final_state = out
